@@ -93,11 +93,13 @@ def run(prop_id, tier, seed, replay=None, configs=None, workers=None, quiet=Fals
     viols = []
     samples = []
     arms = {}
+    progress = collections.Counter()
     evals = cut_calls = guard = ro = sup = 0
     for r in results:
         _merge_counts(counters, r["counters"])
         _merge_counts(contracts, r["contracts"])
         _merge_counts(emu, r.get("emu_stats"))
+        _merge_counts(progress, r.get("progress"))
         words.update(r["words"])
         viols.extend(r["violations"])
         evals += r["evaluations"]
@@ -194,6 +196,8 @@ def run(prop_id, tier, seed, replay=None, configs=None, workers=None, quiet=Fals
             ev["coverage"]["emulated_pyx_out_of_bounds"] = emu.get("oob", 0)
         if arms:
             ev["coverage"]["branch_arms"] = arms
+        if progress:
+            ev["coverage"]["cursor_progress_monitor"] = dict(progress)
         os.makedirs(os.path.join(outroot, "evidence"), exist_ok=True)
         with open(os.path.join(outroot, "evidence", prop_id + ".json"), "w") as f:
             json.dump(ev, f, indent=1)
